@@ -238,6 +238,7 @@ Definition asCC (x : sx) : option ccall :=
   | L [I 4%Z] => Some CLen
   | L [I 5%Z] => Some CClear
   | L [I 6%Z; k] => obind (asNat k) (fun k => Some (CFail k))
+  | L [I 7%Z; k; v] => obind (asNat k) (fun k => obind (asNat v) (fun v => Some (CSetNM k v)))
   | _ => None
   end.
 Definition asTC (x : sx) : option tcall :=
@@ -246,6 +247,8 @@ Definition asTC (x : sx) : option tcall :=
   | L [I 1%Z; a] => obind (asNat a) (fun a => Some (TFind a))
   | L [I 2%Z; w; a] => obind (asNat w) (fun w => obind (asNat a) (fun a => Some (TGetAt w a)))
   | L [I 3%Z; w; a] => obind (asNat w) (fun w => obind (asNat a) (fun a => Some (TFindAt w a)))
+  | L [I 4%Z; a] => obind (asNat a) (fun a => Some (TGetF a))
+  | L [I 5%Z; a] => obind (asNat a) (fun a => Some (TFindF a))
   | _ => None
   end.
 Definition asSC (x : sx) : option scall :=
